@@ -90,7 +90,7 @@ def zr(x):
 
 
 def key_of(t):
-    return z3.simplify(t, som=True).sexpr()
+    return z3.simplify(t, som=True, sort_sums=True).sexpr()
 
 
 # ----------------------------------------------------------------------------
@@ -317,11 +317,12 @@ def implied(e, timeout_ms=None):
     k = (e.get_id(), len(CTX.path), len(CTX.pre), len(CTX.simple))
     if k in CTX.implied_cache:
         return CTX.implied_cache[k]
+    ck = None
     if CTX.lazy:
-        h = (e.hash(), len(CTX.pre))
-        for t, rr, ns in _IMPLIED_GLOBAL.get(h, ()):
-            if t.eq(e):
-                return rr
+        # canonical key: runs that build the same guard in a different summation order must resolve it identically
+        ck = (z3.simplify(e, som=True, sort_sums=True).sexpr(), len(CTX.pre))
+        if ck in _IMPLIED_GLOBAL:
+            return _IMPLIED_GLOBAL[ck]
     res = None
     pool = list(CTX.pre) + ([] if CTX.lazy else CTX.path_terms()) + list(CTX.simple)
     pool = cone([e], pool)
@@ -342,8 +343,8 @@ def implied(e, timeout_ms=None):
             res = val
             break
     CTX.implied_cache[k] = res
-    if CTX.lazy:
-        _IMPLIED_GLOBAL.setdefault((e.hash(), len(CTX.pre)), []).append((e, res, len(CTX.simple)))
+    if ck is not None:
+        _IMPLIED_GLOBAL[ck] = res
     return res
 
 
@@ -879,19 +880,19 @@ def uf_apply(name, x):
 
 def cos_sin(t):
     """t: z3 term that is a signed sum of registered angle variables"""
-    t = z3.simplify(t, som=True)
+    t = z3.simplify(t, som=True, sort_sums=True)
     for (th, c, s) in CTX.ang_reg.values():
         if t.eq(th):
             return c, s
-        if z3.simplify(t + th, som=True).eq(z3.RealVal(0)):
+        if z3.simplify(t + th, som=True, sort_sums=True).eq(z3.RealVal(0)):
             return c, -s
     # difference / sum of two angles
     items = list(CTX.ang_reg.values())
     for (t1, c1, s1) in items:
         for (t2, c2, s2) in items:
-            if z3.simplify(t - (t1 - t2), som=True).eq(z3.RealVal(0)):
+            if z3.simplify(t - (t1 - t2), som=True, sort_sums=True).eq(z3.RealVal(0)):
                 return c1 * c2 + s1 * s2, s1 * c2 - c1 * s2
-            if z3.simplify(t - (t1 + t2), som=True).eq(z3.RealVal(0)):
+            if z3.simplify(t - (t1 + t2), som=True, sort_sums=True).eq(z3.RealVal(0)):
                 return c1 * c2 - s1 * s2, s1 * c2 + c1 * s2
     raise Unsupported('cos/sin of %s' % t)
 
@@ -978,7 +979,7 @@ class SC:
             return True
         if self.im.is_conc:
             return False
-        if z3.simplify(self.im.z, som=True).eq(z3.RealVal(0)):
+        if z3.simplify(self.im.z, som=True, sort_sums=True).eq(z3.RealVal(0)):
             return True
         k = self.im.z.get_id()
         if k not in _IMZERO:
